@@ -10,6 +10,8 @@ import (
 	"strings"
 
 	"src.elv.sh/pkg/eval"
+	"src.elv.sh/pkg/mods/re"
+	"src.elv.sh/pkg/mods/str"
 	"src.elv.sh/pkg/parse"
 	"src.elv.sh/zzverif/simrt"
 )
@@ -33,7 +35,7 @@ func genC40(c *Ctx, dir string) *c40case {
 		n = w.Range(40, 200)
 	}
 	snip := func() string {
-		switch w.Draw(26) {
+		switch w.Draw(38) {
 		case 0:
 			return fmt.Sprintf("range %d | each {|x| put $x } | count", n)
 		case 1:
@@ -84,6 +86,30 @@ func genC40(c *Ctx, dir string) *c40case {
 			return fmt.Sprintf("fn g { range %d | each {|x| put $x } }; g | take 2; g > %s", n, f2)
 		case 24:
 			return fmt.Sprintf("echo x > %s; echo y < %s > %s 2>&1", f1, f1, f2)
+		// Builtins that capture the output of a callback (Frame.CaptureOutput /
+		// PipeOutput), with callbacks that succeed, fail, or produce much output.
+		case 26:
+			return "order &key={|x| fail badkey } [c a b]"
+		case 27:
+			return fmt.Sprintf("order &key={|x| range %d | each {|y| put $y } | count } [c a b] | count", n)
+		case 28:
+			return "keep-if {|x| fail nope } [a b c]"
+		case 29:
+			return fmt.Sprintf("keep-if {|x| echo noise; range %d | count | nop (all); put $true } [a b c] | count", n)
+		case 30:
+			return "order &less-than={|a b| fail cmp } [c a b]"
+		case 31:
+			return "styled foo {|s| fail transformer }"
+		case 32:
+			return "try { order &key={|x| if (eq $x b) { fail mid }; put $x } [c a b] } catch e { put caught }"
+		case 33:
+			return fmt.Sprintf("put (keep-if {|x| range %d | each {|y| fail inner } } [a b])", n)
+		case 34:
+			return "use re; re:replace a {|m| fail repl } banana"
+		case 35:
+			return "use str; each {|x| put (str:join , [(range 3)]) } [a b] | count"
+		case 36:
+			return fmt.Sprintf("var r = ?(order &key={|x| range %d | nop; fail after } [b a]); put $r | count", n)
 		default:
 			return fmt.Sprintf("var y = ?(range %d | each {|x| fail z }); put ok", n)
 		}
@@ -132,6 +158,8 @@ func runC40(c *Ctx) {
 		done := false
 		s.Spawn("main", func() {
 			ev := eval.NewEvaler()
+			ev.AddModule("re", re.Ns)
+			ev.AddModule("str", str.Ns)
 			outPort, collect, err := eval.CapturePort()
 			if err != nil {
 				panic(err)
